@@ -1,0 +1,585 @@
+//go:build verif
+
+// Contracts for package fpgo, part 5: combinators and pattern matching (C20), sorting (C19).
+package fpgo
+
+// ===================================================================================================
+// C20 - Compose / Pipe: over the ghost event trace (one event per call of a user function value: tr_fn = the function,
+// tr_arg = its (boxed) argument list, tr_res = its (boxed) result list).  Building a composition calls nothing; applying
+// Compose(f0..fn-1) to s calls fn-1, ..., f0 - each exactly once, in that order, the first on s, every later one on the
+// previous result - and returns the last result.  Pipe is the same with the order f0, ..., fn-1.
+
+//@ func Compose
+//@   prop C20
+//@   opt callbacks=effectful
+//@   opt effects=trace
+//@   opt returns-lit=0
+//@   ensures lazy: tr_len == old(tr_len)
+//@ func Compose lit 0
+//@   prop C20
+//@   opt callbacks=effectful
+//@   opt effects=trace
+//@   requires len(fnList) >= 1 && forall(k, 0, len(fnList), fnList[k] != nil)
+//@   ensures count: tr_len == old(tr_len) + len(fnList)
+//@   ensures order: forall(k, 0, len(fnList), tr_kind[old(tr_len)+k] == 1 && tr_fn[old(tr_len)+k] == fnList[len(fnList)-1-k])
+//@   ensures first-arg: tr_arg[old(tr_len)] == boxed(s)
+//@   ensures chain: forall(k, 1, len(fnList), tr_arg[old(tr_len)+k] == tr_res[old(tr_len)+k-1])
+//@   ensures value: boxed(r0) == tr_res[old(tr_len)+len(fnList)-1]
+
+//@ func ComposeInterface
+//@   prop C20
+//@   opt callbacks=effectful
+//@   opt effects=trace
+//@   opt returns-lit=Compose:0
+//@   ensures lazy: tr_len == old(tr_len)
+
+//@ func Pipe
+//@   prop C20
+//@   opt callbacks=effectful
+//@   opt effects=trace
+//@   opt returns-lit=0
+//@   ensures lazy: tr_len == old(tr_len)
+//@ func Pipe lit 0
+//@   prop C20
+//@   opt callbacks=effectful
+//@   opt effects=trace
+//@   requires len(fnList) >= 1 && forall(k, 0, len(fnList), fnList[k] != nil)
+//@   ensures count: tr_len == old(tr_len) + len(fnList)
+//@   ensures order: forall(k, 0, len(fnList), tr_kind[old(tr_len)+k] == 1 && tr_fn[old(tr_len)+k] == fnList[k])
+//@   ensures first-arg: tr_arg[old(tr_len)] == boxed(s)
+//@   ensures chain: forall(k, 1, len(fnList), tr_arg[old(tr_len)+k] == tr_res[old(tr_len)+k-1])
+//@   ensures value: boxed(r0) == tr_res[old(tr_len)+len(fnList)-1]
+
+//@ func PipeInterface
+//@   prop C20
+//@   opt callbacks=effectful
+//@   opt effects=trace
+//@   opt returns-lit=Pipe:0
+//@   ensures lazy: tr_len == old(tr_len)
+
+// ===================================================================================================
+// C20 - adapters: building one calls nothing; applying it calls the wrapped function exactly once with exactly the bound
+// and supplied arguments, in order (tr_args[e][k] = k-th argument of event e as passed; a variadic tail passed as xs... is one
+// slice value), and returns exactly its results, in order.
+
+//@ func MakeVariadicParam1
+//@   prop C20
+//@   opt callbacks=effectful
+//@   opt effects=trace
+//@   opt returns-lit=0
+//@   ensures lazy: tr_len == old(tr_len)
+//@ func MakeVariadicParam1 lit 0
+//@   prop C20
+//@   opt callbacks=effectful
+//@   opt effects=trace
+//@   requires fn != nil && len(args) >= 1
+//@   ensures once: tr_len == old(tr_len)+1 && tr_kind[old(tr_len)] == 1 && tr_fn[old(tr_len)] == fn
+//@   ensures args-in-order: tr_args[old(tr_len)][0] == args[0]
+//@   ensures value: boxed(r0) == tr_ress[old(tr_len)][0]
+
+//@ func MakeVariadicParam2
+//@   prop C20
+//@   opt callbacks=effectful
+//@   opt effects=trace
+//@   opt returns-lit=0
+//@   ensures lazy: tr_len == old(tr_len)
+//@ func MakeVariadicParam2 lit 0
+//@   prop C20
+//@   opt callbacks=effectful
+//@   opt effects=trace
+//@   requires fn != nil && len(args) >= 2
+//@   ensures once: tr_len == old(tr_len)+1 && tr_kind[old(tr_len)] == 1 && tr_fn[old(tr_len)] == fn
+//@   ensures args-in-order: tr_args[old(tr_len)][0] == args[0] && tr_args[old(tr_len)][1] == args[1]
+//@   ensures value: boxed(r0) == tr_ress[old(tr_len)][0]
+
+//@ func MakeVariadicParam3
+//@   prop C20
+//@   opt callbacks=effectful
+//@   opt effects=trace
+//@   opt returns-lit=0
+//@   ensures lazy: tr_len == old(tr_len)
+//@ func MakeVariadicParam3 lit 0
+//@   prop C20
+//@   opt callbacks=effectful
+//@   opt effects=trace
+//@   requires fn != nil && len(args) >= 3
+//@   ensures once: tr_len == old(tr_len)+1 && tr_kind[old(tr_len)] == 1 && tr_fn[old(tr_len)] == fn
+//@   ensures args-in-order: tr_args[old(tr_len)][0] == args[0] && tr_args[old(tr_len)][1] == args[1] && tr_args[old(tr_len)][2] == args[2]
+//@   ensures value: boxed(r0) == tr_ress[old(tr_len)][0]
+
+//@ func MakeVariadicParam4
+//@   prop C20
+//@   opt callbacks=effectful
+//@   opt effects=trace
+//@   opt returns-lit=0
+//@   ensures lazy: tr_len == old(tr_len)
+//@ func MakeVariadicParam4 lit 0
+//@   prop C20
+//@   opt callbacks=effectful
+//@   opt effects=trace
+//@   requires fn != nil && len(args) >= 4
+//@   ensures once: tr_len == old(tr_len)+1 && tr_kind[old(tr_len)] == 1 && tr_fn[old(tr_len)] == fn
+//@   ensures args-in-order: tr_args[old(tr_len)][0] == args[0] && tr_args[old(tr_len)][1] == args[1] && tr_args[old(tr_len)][2] == args[2] && tr_args[old(tr_len)][3] == args[3]
+//@   ensures value: boxed(r0) == tr_ress[old(tr_len)][0]
+
+//@ func MakeVariadicParam5
+//@   prop C20
+//@   opt callbacks=effectful
+//@   opt effects=trace
+//@   opt returns-lit=0
+//@   ensures lazy: tr_len == old(tr_len)
+//@ func MakeVariadicParam5 lit 0
+//@   prop C20
+//@   opt callbacks=effectful
+//@   opt effects=trace
+//@   requires fn != nil && len(args) >= 5
+//@   ensures once: tr_len == old(tr_len)+1 && tr_kind[old(tr_len)] == 1 && tr_fn[old(tr_len)] == fn
+//@   ensures args-in-order: tr_args[old(tr_len)][0] == args[0] && tr_args[old(tr_len)][1] == args[1] && tr_args[old(tr_len)][2] == args[2] && tr_args[old(tr_len)][3] == args[3] && tr_args[old(tr_len)][4] == args[4]
+//@   ensures value: boxed(r0) == tr_ress[old(tr_len)][0]
+
+//@ func MakeVariadicParam6
+//@   prop C20
+//@   opt callbacks=effectful
+//@   opt effects=trace
+//@   opt returns-lit=0
+//@   ensures lazy: tr_len == old(tr_len)
+//@ func MakeVariadicParam6 lit 0
+//@   prop C20
+//@   opt callbacks=effectful
+//@   opt effects=trace
+//@   requires fn != nil && len(args) >= 6
+//@   ensures once: tr_len == old(tr_len)+1 && tr_kind[old(tr_len)] == 1 && tr_fn[old(tr_len)] == fn
+//@   ensures args-in-order: tr_args[old(tr_len)][0] == args[0] && tr_args[old(tr_len)][1] == args[1] && tr_args[old(tr_len)][2] == args[2] && tr_args[old(tr_len)][3] == args[3] && tr_args[old(tr_len)][4] == args[4] && tr_args[old(tr_len)][5] == args[5]
+//@   ensures value: boxed(r0) == tr_ress[old(tr_len)][0]
+
+//@ func MakeVariadicReturn1
+//@   prop C20
+//@   opt callbacks=effectful
+//@   opt effects=trace
+//@   opt returns-lit=0
+//@   ensures lazy: tr_len == old(tr_len)
+//@ func MakeVariadicReturn1 lit 0
+//@   prop C20
+//@   opt callbacks=effectful
+//@   opt effects=trace
+//@   requires fn != nil
+//@   ensures once: tr_len == old(tr_len)+1 && tr_kind[old(tr_len)] == 1 && tr_fn[old(tr_len)] == fn
+//@   ensures args-passed: tr_args[old(tr_len)][0] == boxed(args)
+//@   ensures value: len(r0) == 1 && r0[0] == tr_ress[old(tr_len)][0]
+
+//@ func MakeVariadicReturn2
+//@   prop C20
+//@   opt callbacks=effectful
+//@   opt effects=trace
+//@   opt returns-lit=0
+//@   ensures lazy: tr_len == old(tr_len)
+//@ func MakeVariadicReturn2 lit 0
+//@   prop C20
+//@   opt callbacks=effectful
+//@   opt effects=trace
+//@   requires fn != nil
+//@   ensures once: tr_len == old(tr_len)+1 && tr_kind[old(tr_len)] == 1 && tr_fn[old(tr_len)] == fn
+//@   ensures args-passed: tr_args[old(tr_len)][0] == boxed(args)
+//@   ensures value: len(r0) == 2 && r0[0] == tr_ress[old(tr_len)][0] && r0[1] == tr_ress[old(tr_len)][1]
+
+//@ func MakeVariadicReturn3
+//@   prop C20
+//@   opt callbacks=effectful
+//@   opt effects=trace
+//@   opt returns-lit=0
+//@   ensures lazy: tr_len == old(tr_len)
+//@ func MakeVariadicReturn3 lit 0
+//@   prop C20
+//@   opt callbacks=effectful
+//@   opt effects=trace
+//@   requires fn != nil
+//@   ensures once: tr_len == old(tr_len)+1 && tr_kind[old(tr_len)] == 1 && tr_fn[old(tr_len)] == fn
+//@   ensures args-passed: tr_args[old(tr_len)][0] == boxed(args)
+//@   ensures value: len(r0) == 3 && r0[0] == tr_ress[old(tr_len)][0] && r0[1] == tr_ress[old(tr_len)][1] && r0[2] == tr_ress[old(tr_len)][2]
+
+//@ func MakeVariadicReturn4
+//@   prop C20
+//@   opt callbacks=effectful
+//@   opt effects=trace
+//@   opt returns-lit=0
+//@   ensures lazy: tr_len == old(tr_len)
+//@ func MakeVariadicReturn4 lit 0
+//@   prop C20
+//@   opt callbacks=effectful
+//@   opt effects=trace
+//@   requires fn != nil
+//@   ensures once: tr_len == old(tr_len)+1 && tr_kind[old(tr_len)] == 1 && tr_fn[old(tr_len)] == fn
+//@   ensures args-passed: tr_args[old(tr_len)][0] == boxed(args)
+//@   ensures value: len(r0) == 4 && r0[0] == tr_ress[old(tr_len)][0] && r0[1] == tr_ress[old(tr_len)][1] && r0[2] == tr_ress[old(tr_len)][2] && r0[3] == tr_ress[old(tr_len)][3]
+
+//@ func MakeVariadicReturn5
+//@   prop C20
+//@   opt callbacks=effectful
+//@   opt effects=trace
+//@   opt returns-lit=0
+//@   ensures lazy: tr_len == old(tr_len)
+//@ func MakeVariadicReturn5 lit 0
+//@   prop C20
+//@   opt callbacks=effectful
+//@   opt effects=trace
+//@   requires fn != nil
+//@   ensures once: tr_len == old(tr_len)+1 && tr_kind[old(tr_len)] == 1 && tr_fn[old(tr_len)] == fn
+//@   ensures args-passed: tr_args[old(tr_len)][0] == boxed(args)
+//@   ensures value: len(r0) == 5 && r0[0] == tr_ress[old(tr_len)][0] && r0[1] == tr_ress[old(tr_len)][1] && r0[2] == tr_ress[old(tr_len)][2] && r0[3] == tr_ress[old(tr_len)][3] && r0[4] == tr_ress[old(tr_len)][4]
+
+//@ func MakeVariadicReturn6
+//@   prop C20
+//@   opt callbacks=effectful
+//@   opt effects=trace
+//@   opt returns-lit=0
+//@   ensures lazy: tr_len == old(tr_len)
+//@ func MakeVariadicReturn6 lit 0
+//@   prop C20
+//@   opt callbacks=effectful
+//@   opt effects=trace
+//@   requires fn != nil
+//@   ensures once: tr_len == old(tr_len)+1 && tr_kind[old(tr_len)] == 1 && tr_fn[old(tr_len)] == fn
+//@   ensures args-passed: tr_args[old(tr_len)][0] == boxed(args)
+//@   ensures value: len(r0) == 6 && r0[0] == tr_ress[old(tr_len)][0] && r0[1] == tr_ress[old(tr_len)][1] && r0[2] == tr_ress[old(tr_len)][2] && r0[3] == tr_ress[old(tr_len)][3] && r0[4] == tr_ress[old(tr_len)][4] && r0[5] == tr_ress[old(tr_len)][5]
+
+//@ func CurryParam1ForSlice1
+//@   prop C20
+//@   opt callbacks=effectful
+//@   opt effects=trace
+//@   opt returns-lit=0
+//@   ensures lazy: tr_len == old(tr_len)
+//@ func CurryParam1ForSlice1 lit 0
+//@   prop C20
+//@   opt callbacks=effectful
+//@   opt effects=trace
+//@   requires fn != nil
+//@   ensures once: tr_len == old(tr_len)+1 && tr_kind[old(tr_len)] == 1 && tr_fn[old(tr_len)] == fn
+//@   ensures args-in-order: tr_args[old(tr_len)][0] == a && tr_args[old(tr_len)][1] == boxed(args)
+//@   ensures value: r0 == tr_ress[old(tr_len)][0]
+
+//@ func CurryParam1
+//@   prop C20
+//@   opt callbacks=effectful
+//@   opt effects=trace
+//@   opt returns-lit=0
+//@   ensures lazy: tr_len == old(tr_len)
+//@ func CurryParam1 lit 0
+//@   prop C20
+//@   opt callbacks=effectful
+//@   opt effects=trace
+//@   requires fn != nil
+//@   ensures once: tr_len == old(tr_len)+1 && tr_kind[old(tr_len)] == 1 && tr_fn[old(tr_len)] == fn
+//@   ensures args-in-order: tr_args[old(tr_len)][0] == a && tr_args[old(tr_len)][1] == boxed(args)
+//@   ensures value: r0 == tr_ress[old(tr_len)][0]
+
+//@ func CurryParam2
+//@   prop C20
+//@   opt callbacks=effectful
+//@   opt effects=trace
+//@   opt returns-lit=0
+//@   ensures lazy: tr_len == old(tr_len)
+//@ func CurryParam2 lit 0
+//@   prop C20
+//@   opt callbacks=effectful
+//@   opt effects=trace
+//@   requires fn != nil
+//@   ensures once: tr_len == old(tr_len)+1 && tr_kind[old(tr_len)] == 1 && tr_fn[old(tr_len)] == fn
+//@   ensures args-in-order: tr_args[old(tr_len)][0] == a && tr_args[old(tr_len)][1] == b && tr_args[old(tr_len)][2] == boxed(args)
+//@   ensures value: r0 == tr_ress[old(tr_len)][0]
+
+//@ func CurryParam3
+//@   prop C20
+//@   opt callbacks=effectful
+//@   opt effects=trace
+//@   opt returns-lit=0
+//@   ensures lazy: tr_len == old(tr_len)
+//@ func CurryParam3 lit 0
+//@   prop C20
+//@   opt callbacks=effectful
+//@   opt effects=trace
+//@   requires fn != nil
+//@   ensures once: tr_len == old(tr_len)+1 && tr_kind[old(tr_len)] == 1 && tr_fn[old(tr_len)] == fn
+//@   ensures args-in-order: tr_args[old(tr_len)][0] == a && tr_args[old(tr_len)][1] == b && tr_args[old(tr_len)][2] == c && tr_args[old(tr_len)][3] == boxed(args)
+//@   ensures value: r0 == tr_ress[old(tr_len)][0]
+
+//@ func CurryParam4
+//@   prop C20
+//@   opt callbacks=effectful
+//@   opt effects=trace
+//@   opt returns-lit=0
+//@   ensures lazy: tr_len == old(tr_len)
+//@ func CurryParam4 lit 0
+//@   prop C20
+//@   opt callbacks=effectful
+//@   opt effects=trace
+//@   requires fn != nil
+//@   ensures once: tr_len == old(tr_len)+1 && tr_kind[old(tr_len)] == 1 && tr_fn[old(tr_len)] == fn
+//@   ensures args-in-order: tr_args[old(tr_len)][0] == a && tr_args[old(tr_len)][1] == b && tr_args[old(tr_len)][2] == c && tr_args[old(tr_len)][3] == d && tr_args[old(tr_len)][4] == boxed(args)
+//@   ensures value: r0 == tr_ress[old(tr_len)][0]
+
+//@ func CurryParam5
+//@   prop C20
+//@   opt callbacks=effectful
+//@   opt effects=trace
+//@   opt returns-lit=0
+//@   ensures lazy: tr_len == old(tr_len)
+//@ func CurryParam5 lit 0
+//@   prop C20
+//@   opt callbacks=effectful
+//@   opt effects=trace
+//@   requires fn != nil
+//@   ensures once: tr_len == old(tr_len)+1 && tr_kind[old(tr_len)] == 1 && tr_fn[old(tr_len)] == fn
+//@   ensures args-in-order: tr_args[old(tr_len)][0] == a && tr_args[old(tr_len)][1] == b && tr_args[old(tr_len)][2] == c && tr_args[old(tr_len)][3] == d && tr_args[old(tr_len)][4] == e && tr_args[old(tr_len)][5] == boxed(args)
+//@   ensures value: r0 == tr_ress[old(tr_len)][0]
+
+//@ func CurryParam6
+//@   prop C20
+//@   opt callbacks=effectful
+//@   opt effects=trace
+//@   opt returns-lit=0
+//@   ensures lazy: tr_len == old(tr_len)
+//@ func CurryParam6 lit 0
+//@   prop C20
+//@   opt callbacks=effectful
+//@   opt effects=trace
+//@   requires fn != nil
+//@   ensures once: tr_len == old(tr_len)+1 && tr_kind[old(tr_len)] == 1 && tr_fn[old(tr_len)] == fn
+//@   ensures args-in-order: tr_args[old(tr_len)][0] == a && tr_args[old(tr_len)][1] == b && tr_args[old(tr_len)][2] == c && tr_args[old(tr_len)][3] == d && tr_args[old(tr_len)][4] == e && tr_args[old(tr_len)][5] == f && tr_args[old(tr_len)][6] == boxed(args)
+//@   ensures value: r0 == tr_ress[old(tr_len)][0]
+
+// ===================================================================================================
+// C20 - Trampoline: iterates its step - each step on the previous step's result, the first on the input - until the first step
+// that reports an error (result nil, that error) or done (that step's result, nil error); no step runs after that one.
+//@ func Trampoline
+//@   prop C20
+//@   opt callbacks=effectful
+//@   opt effects=trace
+//@   ghost it Int
+//@   ghostinit it = 0
+//@   requires fn != nil
+//@   ensures steps: tr_len > old(tr_len) && forall(k, old(tr_len), tr_len, tr_kind[k] == 1 && tr_fn[k] == fn)
+//@   ensures first: tr_args[old(tr_len)][0] == boxed(input)
+//@   ensures chain: forall(k, old(tr_len)+1, tr_len, tr_args[k][0] == tr_ress[k-1][0])
+//@   ensures continued: forall(k, old(tr_len), tr_len-1, tr_err[k] == nil && tr_ress[k][1] == boxed(false))
+//@   ensures stop-error: tr_err[tr_len-1] != nil ==> r0 == nil && r1 == tr_err[tr_len-1]
+//@   ensures stop-done: tr_err[tr_len-1] == nil ==> tr_ress[tr_len-1][1] == boxed(true) && boxed(r0) == tr_ress[tr_len-1][0] && r1 == nil
+//@ func Trampoline loop 0
+//@   ghostset it = it + 1
+//@   invariant count: it >= 0 && tr_len == old(tr_len) + it && forall(k, old(tr_len), tr_len, tr_kind[k] == 1 && tr_fn[k] == fn)
+//@   invariant current: (it == 0 ==> result == input) && (it > 0 ==> boxed(result) == tr_ress[tr_len-1][0] && tr_args[old(tr_len)][0] == boxed(input))
+//@   invariant chain: forall(k, old(tr_len)+1, tr_len, tr_args[k][0] == tr_ress[k-1][0])
+//@   invariant continued: forall(k, old(tr_len), tr_len, tr_err[k] == nil && tr_ress[k][1] == boxed(false))
+
+// ===================================================================================================
+// C20 - CurryDef: a Call on a curry that is not done appends exactly its arguments to the accumulated ones and invokes the
+// function exactly once with the curry itself and all arguments so far, storing its value as the result; a Call on a done
+// curry changes nothing and calls nothing.  args/result are only touched while callM is held, and the decision
+// "not done" is taken inside the same critical section as the update it guards (so concurrent Calls are serial and a
+// MarkDone that happened before a Call got the lock is honoured).
+//@ func CurryNewGenerics
+//@   prop C20
+//@   opt callbacks=effectful
+//@   opt effects=trace
+//@   ensures lazy: tr_len == old(tr_len)
+//@   ensures made: r0 != nil && fresh(r0) && r0.fn == fn && len(r0.args) == 0 && !r0.isDone
+//@ func (CurryDef).Call
+//@   prop C20
+//@   opt callbacks=effectful
+//@   opt effects=trace
+//@   opt lockguard=args:callM;result:callM
+//@   opt decide-under=isDone:callM
+//@   modifies currySelf, currySelf.args
+//@   requires currySelf != nil && currySelf.fn != nil
+//@   ensures self: r0 == currySelf
+//@   ensures done-frozen: old(currySelf.isDone) ==> tr_len == old(tr_len) && currySelf.args == old(currySelf.args) && currySelf.result == old(currySelf.result)
+//@   ensures once: !old(currySelf.isDone) ==> tr_len == old(tr_len)+1 && tr_kind[old(tr_len)] == 1 && tr_fn[old(tr_len)] == currySelf.fn
+//@   ensures accumulated: !old(currySelf.isDone) ==> tr_args[old(tr_len)][0] == boxed(currySelf) && tr_args[old(tr_len)][1] == boxed(currySelf.args)
+//@   ensures appended: !old(currySelf.isDone) ==> len(currySelf.args) == old(len(currySelf.args)) + len(args) && forall(k, 0, old(len(currySelf.args)), currySelf.args[k] == old(currySelf.args[k])) && forall(k, 0, len(args), currySelf.args[old(len(currySelf.args))+k] == old(args[k]))
+//@   ensures result-stored: !old(currySelf.isDone) ==> currySelf.result == tr_ress[old(tr_len)][0]
+//@ func (CurryDef).MarkDone
+//@   prop C20
+//@   modifies currySelf
+//@   requires currySelf != nil
+//@   ensures done: currySelf.isDone && currySelf.args == old(currySelf.args) && currySelf.result == old(currySelf.result)
+//@ func (CurryDef).IsDone
+//@   prop C20
+//@   requires currySelf != nil
+//@   ensures def: r0 == currySelf.isDone
+//@ func (CurryDef).Result
+//@   prop C20
+//@   requires currySelf != nil
+//@   ensures def: r0 == currySelf.result
+
+// ===================================================================================================
+// C20 - pattern matching.  What each pattern kind's test accepts (Matches), and what Apply does (exactly one call of the
+// pattern's effect on the value, returning its result).  Calls on Maybe values are dispatched to the someDef / None
+// contracts of C01.
+//@ func (KindPatternDef).Matches
+//@   prop C20
+//@   opt dispatch=force
+//@   ensures def: r0 == (!absent(value) && rkind(value) == patternSelf.kind)
+//@ func (EqualPatternDef).Matches
+//@   prop C20
+//@   ensures def: r0 == (patternSelf.value == value)
+//@ func (RegexPatternDef).Matches
+//@   prop C20
+//@   opt dispatch=force
+//@   ensures def: r0 == (!absent(value) && rkind(value) == 24 && regexErr(patternSelf.pattern) == nil && regexMatch(patternSelf.pattern, strof(value)))
+//@ func (OtherwisePatternDef).Matches
+//@   prop C20
+//@   ensures def: r0 == true
+
+//@ func (KindPatternDef).Apply
+//@   prop C20
+//@   opt callbacks=effectful
+//@   opt effects=trace
+//@   requires patternSelf.effect != nil
+//@   ensures once: tr_len == old(tr_len)+1 && tr_kind[old(tr_len)] == 1 && tr_fn[old(tr_len)] == patternSelf.effect && tr_arg[old(tr_len)] == value && r0 == tr_res[old(tr_len)]
+//@ func (CompTypePatternDef).Apply
+//@   prop C20
+//@   opt callbacks=effectful
+//@   opt effects=trace
+//@   requires patternSelf.effect != nil
+//@   ensures once: tr_len == old(tr_len)+1 && tr_kind[old(tr_len)] == 1 && tr_fn[old(tr_len)] == patternSelf.effect && tr_arg[old(tr_len)] == value && r0 == tr_res[old(tr_len)]
+//@ func (EqualPatternDef).Apply
+//@   prop C20
+//@   opt callbacks=effectful
+//@   opt effects=trace
+//@   requires patternSelf.effect != nil
+//@   ensures once: tr_len == old(tr_len)+1 && tr_kind[old(tr_len)] == 1 && tr_fn[old(tr_len)] == patternSelf.effect && tr_arg[old(tr_len)] == value && r0 == tr_res[old(tr_len)]
+//@ func (RegexPatternDef).Apply
+//@   prop C20
+//@   opt callbacks=effectful
+//@   opt effects=trace
+//@   requires patternSelf.effect != nil
+//@   ensures once: tr_len == old(tr_len)+1 && tr_kind[old(tr_len)] == 1 && tr_fn[old(tr_len)] == patternSelf.effect && tr_arg[old(tr_len)] == value && r0 == tr_res[old(tr_len)]
+//@ func (OtherwisePatternDef).Apply
+//@   prop C20
+//@   opt callbacks=effectful
+//@   opt effects=trace
+//@   requires patternSelf.effect != nil
+//@   ensures once: tr_len == old(tr_len)+1 && tr_kind[old(tr_len)] == 1 && tr_fn[old(tr_len)] == patternSelf.effect && tr_arg[old(tr_len)] == value && r0 == tr_res[old(tr_len)]
+
+// constructors record exactly what they were given
+//@ func InCaseOfKind
+//@   prop C20
+//@   ensures made: isa(r0, KindPatternDef) && as(r0, KindPatternDef).kind == kind && as(r0, KindPatternDef).effect == effect
+//@ func InCaseOfSumType
+//@   prop C20
+//@   ensures made: isa(r0, CompTypePatternDef) && as(r0, CompTypePatternDef).compType == compType && as(r0, CompTypePatternDef).effect == effect
+//@ func InCaseOfEqual
+//@   prop C20
+//@   ensures made: isa(r0, EqualPatternDef) && as(r0, EqualPatternDef).value == value && as(r0, EqualPatternDef).effect == effect
+//@ func InCaseOfRegex
+//@   prop C20
+//@   ensures made: isa(r0, RegexPatternDef) && as(r0, RegexPatternDef).pattern == pattern && as(r0, RegexPatternDef).effect == effect
+//@ func Otherwise
+//@   prop C20
+//@   ensures made: isa(r0, OtherwisePatternDef) && as(r0, OtherwisePatternDef).effect == effect
+//@ func DefPattern
+//@   prop C20
+//@   ensures made: r0.patterns == patterns
+
+// ===================================================================================================
+// C20 - MatchFor is first-match.  Stated as a protocol over the calls it makes through the Pattern interface (events of
+// kind 2: tr_recv = the pattern, tr_fn = method("Pattern.Matches") / method("Pattern.Apply"), tr_arg = the probed value,
+// tr_res = the boxed result): the patterns are asked in list order, each at most once, every earlier one answered false;
+// after the first that answers true exactly one Apply follows - on that same pattern, with the value that was tested - and
+// its result is returned; nothing else is asked.  MatchFor panics exactly when every pattern was asked and answered false.
+// The probed value is the argument itself unless the argument is a pointer (a non-nil pointer to a struct is dereferenced).
+//@ func (PatternMatching).MatchFor
+//@   prop C20
+//@   opt callbacks=effectful
+//@   opt effects=trace
+//@   opt dispatch=Pattern:off;MaybeDef:force
+//@   requires forall(k, 0, len(patternMatchingSelf.patterns), !untyped(patternMatchingSelf.patterns[k]))
+//@   ensures asked: tr_len >= old(tr_len)+2 && tr_len - old(tr_len) - 2 < len(patternMatchingSelf.patterns)
+//@   ensures earlier-rejected: forall(k, 0, tr_len - old(tr_len) - 2, tr_kind[old(tr_len)+k] == 2 && tr_recv[old(tr_len)+k] == patternMatchingSelf.patterns[k] && tr_fn[old(tr_len)+k] == method("Pattern.Matches") && tr_res[old(tr_len)+k] == boxed(false))
+//@   ensures first-accepting: tr_kind[tr_len-2] == 2 && tr_recv[tr_len-2] == patternMatchingSelf.patterns[tr_len - old(tr_len) - 2] && tr_fn[tr_len-2] == method("Pattern.Matches") && tr_res[tr_len-2] == boxed(true)
+//@   ensures applied: tr_kind[tr_len-1] == 2 && tr_recv[tr_len-1] == patternMatchingSelf.patterns[tr_len - old(tr_len) - 2] && tr_fn[tr_len-1] == method("Pattern.Apply") && tr_arg[tr_len-1] == tr_arg[tr_len-2] && r0 == tr_res[tr_len-1]
+//@   ensures probe: rkind(inValue) != 22 ==> forall(k, old(tr_len), tr_len, tr_arg[k] == inValue)
+//@   ensures@panic none-accepted: tr_len == old(tr_len) + len(patternMatchingSelf.patterns) && forall(k, 0, len(patternMatchingSelf.patterns), tr_kind[old(tr_len)+k] == 2 && tr_recv[old(tr_len)+k] == patternMatchingSelf.patterns[k] && tr_fn[old(tr_len)+k] == method("Pattern.Matches") && tr_res[old(tr_len)+k] == boxed(false))
+//@ func (PatternMatching).MatchFor loop 0
+//@   invariant rejected: tr_len == old(tr_len) + _i && forall(k, 0, _i, tr_kind[old(tr_len)+k] == 2 && tr_recv[old(tr_len)+k] == patternMatchingSelf.patterns[k] && tr_fn[old(tr_len)+k] == method("Pattern.Matches") && tr_res[old(tr_len)+k] == boxed(false))
+//@   invariant probe: rkind(inValue) != 22 ==> forall(k, old(tr_len), tr_len, tr_arg[k] == inValue)
+
+//@ func Either
+//@   prop C20
+//@   opt callbacks=effectful
+//@   opt effects=trace
+//@   opt inline=true
+
+// ===================================================================================================
+// C20 - sum / product / nil types.  Leaf types are defined outright; SumType, the sum-type pattern and NewCompData are
+// stated as protocols over the calls they make through the CompType interface (events of kind 2, as for MatchFor).
+//@ define KINDOF(v) = ite(absent(v), 0, rkind(v))
+
+//@ func (ProductType).Matches
+//@   prop C20
+//@   opt dispatch=force
+//@   ensures def: r0 == (len(value) == len(typeSelf.kinds) && forall(k, 0, len(value), typeSelf.kinds[k] == KINDOF(value[k])))
+//@ func (ProductType).Matches loop 0
+//@   invariant so-far: len(value) == len(typeSelf.kinds) && matches == forall(k, 0, _i, typeSelf.kinds[k] == KINDOF(value[k]))
+
+//@ func (NilTypeDef).Matches
+//@   prop C20
+//@   opt dispatch=force
+//@   ensures def: r0 == (len(value) == 1 && absent(value[0]))
+
+// SumType: members are asked in order with the same values; true as soon as one accepts, false when all were asked and refused
+//@ func (SumType).Matches
+//@   prop C20
+//@   opt callbacks=effectful
+//@   opt effects=trace
+//@   opt dispatch=CompType:off
+//@   requires forall(k, 0, len(typeSelf.compTypes), !untyped(typeSelf.compTypes[k]))
+//@   ensures asked-in-order: forall(k, old(tr_len), tr_len, tr_kind[k] == 2 && tr_recv[k] == typeSelf.compTypes[k-old(tr_len)] && tr_fn[k] == method("CompType.Matches") && tr_args[k][0] == boxed(value))
+//@   ensures earlier-refused: forall(k, old(tr_len), tr_len-1, tr_res[k] == boxed(false))
+//@   ensures accepted: r0 ==> tr_len > old(tr_len) && tr_len - old(tr_len) <= len(typeSelf.compTypes) && tr_res[tr_len-1] == boxed(true)
+//@   ensures refused: !r0 ==> tr_len == old(tr_len) + len(typeSelf.compTypes) && forall(k, old(tr_len), tr_len, tr_res[k] == boxed(false))
+//@ func (SumType).Matches loop 0
+//@   invariant refused-so-far: tr_len == old(tr_len) + _i && forall(k, old(tr_len), tr_len, tr_kind[k] == 2 && tr_recv[k] == typeSelf.compTypes[k-old(tr_len)] && tr_fn[k] == method("CompType.Matches") && tr_args[k][0] == boxed(value) && tr_res[k] == boxed(false))
+
+// the sum-type pattern asks its type exactly once: about the components of a CompData value, else about the value itself
+//@ func (CompTypePatternDef).Matches
+//@   prop C20
+//@   opt callbacks=effectful
+//@   opt effects=trace
+//@   opt dispatch=CompType:off;MaybeDef:force
+//@   requires !untyped(patternSelf.compType)
+//@   ensures asked-once: tr_len == old(tr_len)+1 && tr_kind[old(tr_len)] == 2 && tr_recv[old(tr_len)] == patternSelf.compType && tr_fn[old(tr_len)] == method("CompType.Matches") && boxed(r0) == tr_res[old(tr_len)]
+//@   ensures components: !absent(value) && isa(value, CompData) ==> tr_args[old(tr_len)][0] == boxed(as(value, CompData).objects)
+//@   ensures itself: !(!absent(value) && isa(value, CompData)) ==> len(asslice(tr_args[old(tr_len)][0])) == 1 && asslice(tr_args[old(tr_len)][0])[0] == value
+
+//@ func MatchCompTypeRef
+//@   prop C20
+//@   opt callbacks=effectful
+//@   opt effects=trace
+//@   opt dispatch=CompType:off
+//@   requires !untyped(compType) && value != nil
+//@   ensures asked-once: tr_len == old(tr_len)+1 && tr_kind[old(tr_len)] == 2 && tr_recv[old(tr_len)] == compType && tr_fn[old(tr_len)] == method("CompType.Matches") && boxed(r0) == tr_res[old(tr_len)] && tr_args[old(tr_len)][0] == boxed(value.objects)
+//@ func MatchCompType
+//@   prop C20
+//@   opt callbacks=effectful
+//@   opt effects=trace
+//@   opt dispatch=CompType:off
+//@   requires !untyped(compType)
+//@   ensures asked-once: tr_len == old(tr_len)+1 && tr_kind[old(tr_len)] == 2 && tr_recv[old(tr_len)] == compType && tr_fn[old(tr_len)] == method("CompType.Matches") && boxed(r0) == tr_res[old(tr_len)] && tr_args[old(tr_len)][0] == boxed(value.objects)
+
+// NewCompData returns a value iff the type accepts the arguments; the value records exactly the type and the arguments
+//@ func NewCompData
+//@   prop C20
+//@   opt callbacks=effectful
+//@   opt effects=trace
+//@   opt dispatch=CompType:off
+//@   requires !untyped(compType)
+//@   ensures asked-once: tr_len == old(tr_len)+1 && tr_kind[old(tr_len)] == 2 && tr_recv[old(tr_len)] == compType && tr_fn[old(tr_len)] == method("CompType.Matches") && tr_args[old(tr_len)][0] == boxed(value)
+//@   ensures iff-accepted: boxed(r0 != nil) == tr_res[old(tr_len)]
+//@   ensures records: r0 != nil ==> fresh(r0) && r0.compType == compType && r0.objects == value
+
+//@ func DefSum
+//@   prop C20
+//@   ensures made: isa(r0, SumType) && as(r0, SumType).compTypes == compTypes
+//@ func DefProduct
+//@   prop C20
+//@   ensures made: isa(r0, ProductType) && as(r0, ProductType).kinds == kinds
